@@ -184,4 +184,63 @@ def weightedSpecE (g : Grammar) (decl : Option Ty) (v : Val) : Nat :=
   (((declSubvalues g decl v).filter fun p => p.2.isNonTerminalNode g).map fun p => dttSpecE g p.1 p.2).sum
     + (v.subvalues.filter fun x => !x.isContainer && !x.isNonTerminalNode g).length
 
+/-! ### The memoised algorithm in either depth mode
+
+As in `Model/Labels.lean`: an object whose `gengy_labeled` flag is set returns its stored labels
+without looking at its children.  What the ENCLOSING node adds for the step down to a child
+(`absAdjust`, `listAdjust`) is computed from the child's class, never cached. -/
+
+mutual
+def relabelMemoE (g : Grammar) (decl : Option Ty) : LVal → Lab × LVal
+  | .node (some l) c d e args => (l, .node (some l) c d e args)
+  | .node none c d e args =>
+      if g.isTerminalCls c then
+        let l : Lab := ⟨g.e, g.e, g.e, [(.cls c, 1)]⟩
+        (l, .node (some l) c d e args)
+      else
+        let (r, args') := relabelMemoChildrenE g true ((g.cls c).fields.map fun f => some f.2) args
+        let dtt := max 1 r.2.1
+        let l : Lab := ⟨1 + r.1, dtt, r.2.2.1 + dtt, mergeCounts [(.cls c, 1)] r.2.2.2⟩
+        (l, .node (some l) c d e args')
+  | .list (some l) d e vs => (l, .list (some l) d e vs)
+  | .list none d e vs =>
+      let (r, vs') := relabelMemoChildrenE g true (List.replicate vs.length (decl.bind Ty.elem)) vs
+      let l : Lab := ⟨r.1, r.2.1, r.2.2.1, mergeCounts [(.list, 1)] r.2.2.2⟩
+      (l, .list (some l) d e vs')
+  | .tuple vs =>
+      let (r, vs') := relabelMemoChildrenE g false (((decl.map Ty.comps).getD []).map some) vs
+      (⟨r.1, r.2.1, r.2.2.1, mergeCounts [(.tuple, 1)] r.2.2.2⟩, .tuple vs')
+  | .int i => (⟨g.e, g.e, g.e, [(.int, 1)]⟩, .int i)
+  | .float => (⟨g.e, g.e, g.e, [(.float, 1)]⟩, .float)
+  | .str s => (⟨g.e, g.e, g.e, [(.str, 1)]⟩, .str s)
+  | .bool b => (⟨g.e, g.e, g.e, [(.bool, 1)]⟩, .bool b)
+  | .foreign t => (⟨g.e, g.e, g.e, [(.other, 1)]⟩, .foreign t)
+def relabelMemoChildrenE (g : Grammar) (charge : Bool) :
+    List (Option Ty) → List LVal → (Nat × Nat × Nat × List (TKey × Nat)) × List LVal
+  | _, [] => ((0, 0, 0, []), [])
+  | tys, c :: cs =>
+      let (l, c') := relabelMemoE g tys.head?.join c
+      let (r, cs') := relabelMemoChildrenE g charge tys.tail cs
+      let a := absAdjust g (if charge then tys.head?.join else none) c.erase
+      ((l.nodes + a + r.1, max (l.dtt + a + listAdjust c.erase) r.2.1, l.weighted + r.2.2.1,
+        mergeCounts l.types r.2.2.2), c' :: cs')
+end
+
+mutual
+/-- every cached label anywhere in the tree is the (mode-aware) label of the subtree it sits on,
+for the declared type of its position -/
+def CachesCorrectE (g : Grammar) (decl : Option Ty) : LVal → Prop
+  | .node cache c d e args =>
+      (∀ l, cache = some l → l = relabelE g decl (.node c d e (LVal.eraseList args))) ∧
+        CachesCorrectListE g ((g.cls c).fields.map fun f => some f.2) args
+  | .list cache d e vs =>
+      (∀ l, cache = some l → l = relabelE g decl (.list d e (LVal.eraseList vs))) ∧
+        CachesCorrectListE g (List.replicate vs.length (decl.bind Ty.elem)) vs
+  | .tuple vs => CachesCorrectListE g (((decl.map Ty.comps).getD []).map some) vs
+  | _ => True
+def CachesCorrectListE (g : Grammar) : List (Option Ty) → List LVal → Prop
+  | _, [] => True
+  | tys, v :: vs => CachesCorrectE g tys.head?.join v ∧ CachesCorrectListE g tys.tail vs
+end
+
 end GEVerif
